@@ -12,6 +12,7 @@ import (
 	"fmt"
 	"os"
 	"path/filepath"
+	"runtime/debug"
 	"runtime/pprof"
 	"sort"
 	"strings"
@@ -437,5 +438,10 @@ func limitAddressSpace() {
 	fmt.Sscan(v, &n)
 	if n > 0 {
 		setRlimitAS(n)
+		// ... and the same for the stack: a decoder whose recursion depth is decided by the input dies at 32 MiB of
+		// stack (a few hundred thousand levels) instead of Go's default of 1 GB (eight million levels, records of
+		// tens of megabytes). Legitimate recursion - the target type's depth, what encoding/json allows - needs a
+		// fraction of that.
+		debug.SetMaxStack(32 << 20)
 	}
 }
